@@ -234,12 +234,13 @@ PROPS = {
     "C27": dict(
         pkg=SG,
         explanation="signedData (the digest input of every signature handler) executed symbolically on an arbitrary file (all bytes symbolic), arbitrary /ByteRange integers and an arbitrary /Contents string: whenever it succeeds the returned bytes are exactly file[0:b] ++ file[c:c+d]; hence the digest input is an injective function of the covered bytes and any change of a covered byte changes the input of the message digest (second harness states this directly on two files)",
-        outside="the PKCS#7/CMS, X.509 and RFC 3161 verification (collision resistance of the digest and correctness of crypto/... are assumptions); tampering with /Contents beyond the gap check; sample documents",
+        outside="the sequencing inside the X.509/RSA and RFC 3161 handlers (the PKCS#7 handler's gate - digest, certificate and signature verdicts all positive before 'unmodified' - is checked by VerifP7DigestGate with the three verdicts as symbolic outcomes); the PKCS#7/CMS, X.509 and RFC 3161 verification themselves (collision resistance of the digest and correctness of crypto/... are assumptions); tampering with /Contents beyond the gap check; sample documents",
         assumptions=["range lengths and the second offset bounded by file length + 2 in the read harness (full 64-bit arithmetic is covered by VerifByteRangeArithmetic)"],
         harnesses=[
             dict(name="VerifSignedDataCoverage", bounds=dict(quick=dict(N=4, H=1), thorough=dict(N=6, H=2)), opts=dict(unwind=600)),
             dict(name="VerifSignedDataInjective", bounds=dict(quick=dict(N=3, H=0), thorough=dict(N=4, H=1)), opts=dict(unwind=600), thorough_only=True),
             dict(name="VerifByteRangeArithmetic"),
+            dict(name="VerifP7DigestGate", opts=dict(unwind=300)),
         ],
     ),
     "C28": dict(
